@@ -317,6 +317,11 @@ func (x *Exec) assumeIfaceInv(s *State, v T, t types.Type) {
 		s.assume(Implies(Or(ptrAlts...), And(Not(Eq(mk(SInt, "iptr", v), IntLit(0))), Select(al, mk(SInt, "iptr", v), SBool),
 			Eq(mk(SInt, "objtype", mk(SInt, "iptr", v)), mk(SInt, "itag", v)))))
 	}
+	if typeStr(t) == "NodeNavigator" {
+		// navigator model: a navigator is an object with identity (its position lives in navpos);
+		// one that is reachable exists, so a later Copy() is a different object
+		s.assume(Implies(Not(Eq(v, T{"inil", SIface})), And(mk(SBool, "(_ is iref)", v), mk(SBool, ">", mk(SInt, "iptr", v), IntLit(0)), Select(al, mk(SInt, "iptr", v), SBool))))
+	}
 	// values of empty struct types carry no payload
 	for _, ct := range x.p.concrete {
 		if st, ok := ct.Underlying().(*types.Struct); ok && st.NumFields() == 0 {
